@@ -94,11 +94,18 @@ def not_fitted_checks(ctx):
   import copy
   from sklearn.base import clone
   histories = [('new', lambda e: e), ('pickle round trip', lambda e: pickle.loads(pickle.dumps(e))),
-               ('deepcopy', copy.deepcopy), ('clone', clone)]
+               ('deepcopy', copy.deepcopy), ('clone', clone),
+               ('pickle round trip, clone', lambda e: clone(pickle.loads(pickle.dumps(e))))]
   for name, (hname, hist), withpre in [(n, h, wp) for n in fits.NAMES for h in histories for wp in (False, True)]:
     if withpre and hname in ('new', 'clone'):
       continue
-    est = hist(getattr(metric_learn, name)(**(dict(preprocessor=np.arange(20.0).reshape(5, 4)) if withpre else {})))
+    try:
+      est = hist(getattr(metric_learn, name)(**(dict(preprocessor=np.arange(20.0).reshape(5, 4)) if withpre else {})))
+    except Exception as ex:
+      ctx.count('clone_behaves_identically', 1)
+      ctx.fail_input('clone_behaves_identically', '%s: %s of an unfitted estimator raises %s' % (name, hname, type(ex).__name__),
+                     dict(estimator=name, history=hname), observed=str(ex)[:200])
+      continue
     calls = [('transform', (X,)), ('pair_distance', (P,)), ('pair_score', (P,)), ('get_metric', ()),
              ('get_mahalanobis_matrix', ()), ('score_pairs', (P,))]
     ts = fits.TUPLE_SIZE.get(name)
